@@ -256,7 +256,7 @@ func (g *gen20) seqCond() (Criteria, string) {
 }
 
 func (g *gen20) numLit(name string) (ast.Expr, string) {
-	pool := []string{"1", "42", "1.5", "0", "100000000000000000000"}
+	pool := []string{"1", "42", "1.5", "0", "100000000000000000000", "2.9999999999", "0.0000000001", "1000000.0000000001", "-0.5"}
 	s := pool[sv.Choice(name, len(pool))]
 	f, _ := strconv.ParseFloat(s, 64)
 	want := strconv.FormatFloat(f, 'f', -1, 64)
